@@ -60,4 +60,23 @@ def jobs(tier):
                  functions=["parsec_matrix_define_rectangle", "parsec_matrix_define_contiguous"], min_obligations=14))
     J.append(Job("contiguous", "h_types.c", entry="h_contiguous", defines={"DMAX": dmax}, unwind=U, timeout=to, mem_gb=4,
                  functions=["parsec_matrix_define_contiguous"], min_obligations=10))
+    # ---- UNBOUNDED in m and n: loop contracts (inductive invariants) on the two block-building loops of the real
+    # parsec_matrix_define_triangle, inserted by the overlay into a scratch copy; the leading dimension is enumerated
+    # (a symbolic ld gives symbolic*symbolic products, which did not finish in 15 min)
+    TRI_RULES = [
+        {"function": "parsec_matrix_define_triangle", "loops": 2, "loop": 0,
+         "text": "__CPROVER_loop_invariant(i >= (unsigned)diag && i <= n && (unsigned)diag == g_d && m == g_m && ld == g_ld && n == g_n && "
+                 "(g_k + g_d >= i || g_k + g_d >= n || (blocklens[g_k + g_d] == (int)((g_k + g_d + 1 - g_d) < g_m ? (g_k + g_d + 1 - g_d) : g_m) "
+                 "&& indices[g_k + g_d] == (int)((g_k + g_d) * g_ld)))) __CPROVER_decreases(n - i)"},
+        {"function": "parsec_matrix_define_triangle", "loops": 2, "loop": 1,
+         "text": "__CPROVER_loop_invariant(i <= nmax && (unsigned)diag == g_d && m == g_m && ld == g_ld && n == g_n && "
+                 "nmax == (n >= (m - g_d) ? m - g_d : n) && (g_k >= i || (blocklens[g_k] == (int)(g_m - g_k - g_d) "
+                 "&& indices[g_k] == (int)(g_k * g_ld + g_k + g_d)))) __CPROVER_decreases(nmax - i)"}]
+    for ldv in ([1, 2, 3, 7, 16, 1000] if tier != "thorough" else [1, 2, 3, 4, 5, 7, 8, 16, 17, 64, 100, 1000, 4096, 30000]):
+        J.append(Job("triangle.unbounded.ld%d" % ldv, "h_tri_unbounded.c", entry="h_triangle_unbounded", defines={"LDFIX": ldv},
+                     loop_contracts=True, unwind=2, overlay=[("parsec/data_dist/matrix/matrixtypes.c", TRI_RULES)],
+                     functions=["parsec_matrix_define_triangle"], min_obligations=10, timeout=600,
+                     bounded="leading dimension enumerated (ld = %d); m and n unbounded (loop contracts), capped only by 30000 so that the code's own int arithmetic does not overflow" % ldv))
+    J.append(Job("triangle.unbounded.lemma_region", "h_tri_unbounded.c", entry="h_lemma_region", unwind=2,
+                 functions=[], min_obligations=1, timeout=300))
     return J
